@@ -218,12 +218,22 @@ CLAIMED["C12"] = dict(
          "and the value fits 16 bits the base is that value, and evaluating the expression at any base - in particular at the base "
          "itself - gives it back (fixpoint); a base with a non-zero coefficient of itself, or one that had to be known to evaluate its "
          "own expression, is recursive-definition; a value outside 16 bits is value-out-of-bounds; the first .link wins and every later "
-         "one is a conflict (any number of them); '. = X' is accepted iff X is not lower and then emits exactly X - old zero bytes. Tie: "
+         "one is a conflict (any number of them); '. = X' is accepted iff X is not lower and then emits exactly X - old zero bytes. "
+         "The engine behind 'the dependence cancels' - deferred.LinearPolynomial, modelled as Model.Poly (insertion-ordered coefficient "
+         "list, constant): the constructor merges duplicates and drops zeros without changing the meaning (eval_mk), + / * by a known "
+         "integer / unary - are ring homomorphisms of the meaning (eval_add, eval_mulConst, eval_neg), every variable occurs once and "
+         "never with coefficient 0 (mk_nodup, mk_nonzero), a variable disappears from the polynomial if and only if its coefficients sum "
+         "to zero (cancel_iff) and the value then does not depend on it (eval_indep), moving the base by D moves the value by coefficient "
+         "x D (eval_shift), _substitute_known and a whole round of _wait keep the meaning under every assignment consistent with what is "
+         "settled (eval_substKnown, eval_waitRound), the number wait() returns is the arithmetic value and two states of knowledge can never "
+         "give two numbers (waitP_sound, waitP_deterministic). Tie: "
          "link expressions K + sum k_i (L_i - L_j) in six syntactic shapes with the labels anywhere in 1-3 files and the directive "
          "anywhere, self-dependent and oversized variants, second .link, no .link, leading '. =', skips -64..64: the generator's own "
-         "expected base, and the whole-program model.",
+         "expected base, and the whole-program model; skips whose amount, target or link base is known only further down; random operation "
+         "scripts on the real LinearPolynomial / Promise classes compared step by step (coefficients in order, constant, wait outcome) "
+         "with Model.Poly and with integer arithmetic.",
     design_ref="DESIGN.md §5 C12",
-    technique="Lean 4 theorems (case analysis, omega, induction over later .link statements) + generator-known expected base + whole-program model/implementation correspondence",
+    technique="Lean 4 theorems (case analysis, omega, induction over later .link statements, over coefficient lists and over rounds of substitution) + generator-known expected base + whole-program model/implementation correspondence",
     note=NOTE + "The model keeps only the link base symbolic; the implementation also keeps the sizes of not-yet-computed chunks symbolic, so a "
          "difference of labels with an address-dependent directive *before both* of them is solved by the code but not by the model "
          "(DESIGN.md, model limitations); the generator of this check keeps such directives out of link programs.",
@@ -260,11 +270,14 @@ CLAIMED["C03"] = dict(
          "is the same for every order (image_perm); values do not depend on the fuel once it suffices (fuel_mono, fuel_irrelevant, "
          "fuel_unique) and enough fuel exists for every acyclic table - ranks bounded by R, body sizes by S: fuel size e + (R+1)(S+1) gives every "
          "expression a value, so running out of it means a definition cycle (fuel_enough, out_of_fuel_means_cycle; the driver uses that bound); an additive chain of any length n evaluates to c + n in every order of its definitions (chain_value, "
-         "chain_value_any_order); definitions added later never capture a reference that already has one (eval_append_of_ok). Tie: "
+         "chain_value_any_order); definitions added later never capture a reference that already has one (eval_append_of_ok); for the "
+         "engine's symbolic arithmetic (Model.Poly = deferred.LinearPolynomial): whatever is settled at the time, two waits that arrive at "
+         "a number arrive at the same one, the arithmetic value (lazy_value_order_independent). Tie: "
          "definition tables in 5 placements against each other and against Defs.image; chains to depth 300/30 in 5 orders with the "
          "value known to the generator; one constant in 33 operand/directive positions, 4 placements, against the literal program; "
          "generated programs with definitions moved/permuted (also through the whole-program model); practice programs with "
-         "literal definitions moved.",
+         "literal definitions moved; includes between the uses; operation scripts on the real LinearPolynomial/Promise classes against "
+         "Model.Poly and integer arithmetic.",
     design_ref="DESIGN.md §5 C03",
     technique="Lean 4 theorems (induction on permutations, on fuel and on chain length) + metamorphic reordering oracle on the implementation + Defs/whole-program model correspondence",
     note=NOTE + "The theorems are about the final table (every definition entered); that the implementation's eager 'try now, else defer' "
